@@ -8,9 +8,11 @@ import (
 	"encoding/hex"
 	"encoding/json"
 	"fmt"
+	"regexp"
 	"sort"
 	"strconv"
 	"strings"
+	"unicode"
 
 	"github.com/nelhage/taktician/ai"
 	"github.com/nelhage/taktician/playtak"
@@ -168,7 +170,77 @@ func posResult(p *tak.Position, err error) string {
 	return "ok " + dumpPos(p)
 }
 
+// The safety predicate of lean/TakVerif/Impl/PTNSafe.lean, written again in Go (with the real FormatMove /
+// ParseMove for the moveSafe clause). The model proves: class "safe" <=> render+parse gives the value back
+// (for values whose moves are moveSafe); the op prints class and outcome, so a value on which the real code
+// behaves otherwise shows up as a disagreement with the model.
+var resultMirrorRE = regexp.MustCompile(`^(F|R|1/2|1|0)-(F|R|1/2|1|0)$`)
+
+const scanWindow = 64 * 1024 // bufio.MaxScanTokenSize
+
+func moveSafeGo(m tak.Move) bool {
+	s := ptn.FormatMove(m)
+	if len(s) == 0 || s[0] == '{' || s[0] == '[' {
+		return false
+	}
+	if l := s[len(s)-1]; l == '.' || l == '?' || l == '!' || l == '\'' {
+		return false
+	}
+	for i := 0; i < len(s); i++ {
+		if unicode.IsSpace(rune(s[i])) {
+			return false
+		}
+	}
+	if resultMirrorRE.MatchString(s) {
+		return false
+	}
+	r, err := ptn.ParseMove(s)
+	return err == nil && r == m
+}
+
+func ptnSafeClass(p *ptn.PTN) string {
+	for _, op := range p.Ops {
+		if m, ok := op.(*ptn.Move); ok && !moveSafeGo(m.Move) {
+			return "nomove"
+		}
+	}
+	for _, t := range p.Tags {
+		if strings.ContainsAny(t.Name, " ]") || strings.ContainsAny(t.Value, "\"]") {
+			return "lossy"
+		}
+	}
+	for _, op := range p.Ops {
+		switch o := op.(type) {
+		case *ptn.Move:
+			if strings.Trim(o.Modifiers, "?!'") != "" || len(ptn.FormatMove(o.Move))+len(o.Modifiers) >= scanWindow {
+				return "lossy"
+			}
+		case *ptn.Comment:
+			if strings.Contains(o.Comment, "}") || len(o.Comment)+2 > scanWindow {
+				return "lossy"
+			}
+		case *ptn.Result:
+			if !resultMirrorRE.MatchString(o.Result) {
+				return "lossy"
+			}
+		}
+	}
+	return "safe"
+}
+
 func init() {
+	opTable["ptnsafe"] = func(s *Session, a []string) string {
+		p := decPTN(a)
+		cls := ptnSafeClass(p)
+		back, err := ptn.ParsePTN(bytes.NewReader([]byte(p.Render())))
+		switch {
+		case err != nil:
+			return cls + " err"
+		case samePTN(p, back):
+			return cls + " same"
+		}
+		return cls + " differs"
+	}
 	opTable["ptnparse"] = func(s *Session, a []string) string {
 		p, err := ptn.ParsePTN(bytes.NewReader(hexDec(a[0])))
 		if err != nil {
